@@ -106,7 +106,9 @@ func (s *sess) issuerRelative(u string) (string, bool) {
 	return "", false
 }
 
-func isRouter404(r *opdrv.Resp) bool { return r.Status == http.StatusNotFound && r.Body.String() == router404 }
+func isRouter404(r *opdrv.Resp) bool {
+	return r.Status == http.StatusNotFound && r.Body.String() == router404
+}
 
 // fetchDoc: GET /.well-known/openid-configuration under the session's request host.
 func (s *sess) fetchDoc() bool {
@@ -514,11 +516,14 @@ func (s *sess) probePKCE(i int) {
 		return
 	}
 	s.run.Observed("pkce-s256-success:" + s.rn)
-	// wrong verifier, absent verifier: each on its own fresh code
-	for _, bad := range []string{"wrong", "absent"} {
+	// wrong verifier, absent verifier, the challenge string itself (an S256 comparison that falls back to a plain one): each on its own fresh code
+	for _, bad := range []string{"wrong", "absent", "challenge-string"} {
 		f.verifier = ""
-		if bad == "wrong" {
+		switch bad {
+		case "wrong":
 			f.verifier = "wrong-" + verifier
+		case "challenge-string":
+			f.verifier = f.challenge
 		}
 		res := s.codeFlow("pkce "+bad+" verifier", f)
 		s.run.Eval()
@@ -543,6 +548,108 @@ const (
 	outerNonce, objNonce = "outer-nonce", "obj-nonce"
 )
 
+// requestObject signs (RS256, registered key of client omni) a conforming request object for this provider.
+func (s *sess) requestObject(extra map[string]any) string {
+	now := time.Now()
+	obj := map[string]any{
+		"iss": "omni", "aud": []string{s.issuer}, "client_id": "omni", "response_type": "code", "redirect_uri": omniRedirect,
+		"scope": "openid email", "state": objState, "nonce": objNonce, "iat": now.Add(-5 * time.Second).Unix(), "exp": now.Add(10 * time.Minute).Unix(),
+	}
+	for k, v := range extra {
+		obj[k] = v
+	}
+	b, _ := json.Marshal(obj)
+	return keys.Sign(omniKey(), b, "")
+}
+
+func (s *sess) s256Advertised() bool {
+	methods, _ := s.doc["code_challenge_methods_supported"].([]any)
+	return slices.Contains(methods, any("S256"))
+}
+
+// probePKCEWithRequestObject: clauses 4 and 5 in combination. When both S256 and request objects are advertised, the PKCE
+// parameters may travel in the query, in the signed object, or in both (the object supersedes the query): wherever they
+// travel, the right verifier must redeem the code and a wrong one / none / the challenge string itself must not.
+func (s *sess) probePKCEWithRequestObject() {
+	reqAdv, _ := s.doc["request_parameter_supported"].(bool)
+	if !reqAdv || !s.s256Advertised() {
+		s.run.Count("pkce+reqobj:"+s.rn, "not-both-advertised(not judged)")
+		return
+	}
+	if s.rel["authorization_endpoint"] == "" || s.rel["token_endpoint"] == "" {
+		s.run.Count("pkce+reqobj:"+s.rn, "no-issuer-relative-authorization/token-endpoint(not judged)")
+		return
+	}
+	if l, ok := s.doc["request_object_signing_alg_values_supported"].([]any); ok && len(l) > 0 && !slices.Contains(l, any("RS256")) {
+		s.run.Count("pkce+reqobj:"+s.rn, "advertised-algs-without-RS256(not judged)")
+		return
+	}
+	r := s.run.CaseRand(12, s.w.c.Idx)
+	v1 := fmt.Sprintf("object-verifier-%06d-abcdefghijklmnopqrstuvwxyz-0123", r.IntN(1e6))
+	v2 := fmt.Sprintf("query-verifier-%06d-ABCDEFGHIJKLMNOPQRSTUVWXYZ-4567", r.IntN(1e6))
+	c1, c2 := opdrv.S256(v1), opdrv.S256(v2)
+	type placement struct {
+		name                       string
+		qCh, qMethod, oCh, oMethod string
+		wrong                      string
+	}
+	placements := []placement{
+		{"query-only", c1, "S256", "", "", "wrong-" + v1},
+		{"object-only", "", "", c1, "S256", "wrong-" + v1},
+		{"both-equal", c1, "S256", c1, "S256", "wrong-" + v1},
+		{"both-different", c2, "S256", c1, "S256", v2},                    // the object supersedes: the query's own verifier is a wrong one
+		{"both-query-says-plain", c1, "plain", c1, "S256", "wrong-" + v1}, // the object's method supersedes: the challenge string is not a verifier
+	}
+	for _, p := range placements {
+		var extra map[string]any
+		if p.oCh != "" {
+			extra = map[string]any{"code_challenge": p.oCh, "code_challenge_method": p.oMethod}
+		}
+		allGood := true
+		for _, vk := range []string{"right", "wrong", "absent", "challenge-string"} {
+			f := flowReq{client: s.w.omni, scope: "openid profile", state: outerState, nonce: outerNonce, challenge: p.qCh, challengeMethod: p.qMethod,
+				extra: url.Values{"request": {s.requestObject(extra)}}}
+			switch vk {
+			case "right":
+				f.verifier = v1
+			case "wrong":
+				f.verifier = p.wrong
+			case "challenge-string":
+				f.verifier = c1
+			}
+			res := s.codeFlow("pkce in "+p.name+", "+vk+" verifier", f)
+			s.run.Eval()
+			bucket := p.name + ":" + vk + "-verifier:"
+			switch {
+			case vk == "right" && res.tokens != nil:
+				s.run.Count("pkce+reqobj:"+s.rn, bucket+"tokens")
+			case vk == "right":
+				allGood = false
+				errCode := ""
+				if res.last != nil {
+					errCode = res.last.OAuthError()
+				}
+				s.run.Count("pkce+reqobj:"+s.rn, bucket+"FAILED-at-"+res.stage)
+				s.violation("pkce-reqobj", "right-verifier-refused:"+p.name, fmt.Sprintf("S256 and request objects are advertised; with the PKCE parameters placed %s (query: challenge of %s method %q; object: challenge of %s method %q) the flow with the right verifier stops at %s (%s)",
+					p.name, map[bool]string{true: "the verifier", false: "another verifier"}[p.qCh == c1], p.qMethod, "the verifier", p.oMethod, res.stage, errCode))
+			case res.code == "":
+				allGood = false
+				s.run.Count("pkce+reqobj:"+s.rn, bucket+"no-code")
+			case res.tokens != nil:
+				allGood = false
+				s.run.Count("pkce+reqobj:"+s.rn, bucket+"TOKENS")
+				s.violation("pkce-reqobj", "not-enforced:"+p.name+":"+vk+"-verifier", fmt.Sprintf("S256 and request objects are advertised; with the PKCE parameters placed %s (query method %q, object method %q) the code was redeemed with %s",
+					p.name, p.qMethod, p.oMethod, map[string]string{"wrong": "a wrong code_verifier", "absent": "no code_verifier", "challenge-string": "the code_challenge string itself as code_verifier"}[vk]))
+			default:
+				s.run.Count("pkce+reqobj:"+s.rn, bucket+"refused:"+res.last.OAuthError())
+			}
+		}
+		if allGood {
+			s.run.Observed("pkce+reqobj-honoured:" + s.rn + ":" + p.name)
+		}
+	}
+}
+
 func (s *sess) probeRequestObject() {
 	advertised, _ := s.doc["request_parameter_supported"].(bool)
 	if s.rel["authorization_endpoint"] == "" {
@@ -556,13 +663,7 @@ func (s *sess) probeRequestObject() {
 			return
 		}
 	}
-	now := time.Now()
-	obj := map[string]any{
-		"iss": "omni", "aud": []string{s.issuer}, "client_id": "omni", "response_type": "code", "redirect_uri": omniRedirect,
-		"scope": "openid email", "state": objState, "nonce": objNonce, "iat": now.Add(-5 * time.Second).Unix(), "exp": now.Add(10 * time.Minute).Unix(),
-	}
-	b, _ := json.Marshal(obj)
-	jws := keys.Sign(omniKey(), b, "")
+	jws := s.requestObject(nil)
 	_ = alg
 	f := flowReq{client: s.w.omni, scope: "openid profile", state: outerState, nonce: outerNonce, extra: url.Values{"request": {jws}}}
 	res := s.codeFlow("request object", f)
@@ -789,6 +890,7 @@ func providerCase(run *ev.Run, idx int) {
 	revocable := s.probeGrants(first)
 	s.probePKCE(idx)
 	s.probeRequestObject()
+	s.probePKCEWithRequestObject()
 	s.probeRolesLate(first, revocable)
 
 	// the same provider under a second request host: its document there against a token minted there
